@@ -107,9 +107,11 @@ class IkeSaController:
         logging.debug('Received acquire for {}'.format(peer_addr))
 
         # look for an active IKE_SA with the peer
+        created = False
         try:
             ike_sa = self._get_ike_sa_by_peer_addr(peer_addr)
         except StopIteration:
+            created = True
             my_addr = xfrm_acquire.saddr.to_ipaddr(family)
             ike_conf = self.configuration.get_ike_configuration(my_addr, peer_addr)
             # create new IKE_SA (for now)
@@ -123,6 +125,9 @@ class IkeSaController:
         small_tsr = TrafficSelector.from_network(ip_network(xfrm_acquire.sel.daddr.to_ipaddr(sel_family)),
                                                  xfrm_acquire.sel.dport, xfrm_acquire.sel.proto)
         request = ike_sa.process_acquire(small_tsi, small_tsr, xfrm_acquire.policy.index >> 3)
+        if created and request is None:
+            # nothing to negotiate (no such policy): do not leave a blank IKE_SA behind, later acquires would be handed to it
+            self.ike_sas.remove(ike_sa)
 
         # look for ipsec configuration
         return request, ike_sa.my_addr, ike_sa.peer_addr
